@@ -16,6 +16,8 @@ def signature(rec, info):
     e = info.get("event") or {}
     k = e.get("ev")
     if k == "Dump":
+        if e.get("status", 200) != 200:
+            return "dump-request-fails:status=%s" % e.get("status")
         if any(x.get("age", 0) > 1000000000 for x in e.get("ents", [])):
             return "dump-entry:stored-time-not-written"
         if any(x.get("id", 0) == -1 for x in e.get("ents", [])):
@@ -96,6 +98,13 @@ def judge(ctx, recs, job=None):
     return acc, rej
 
 
+def dumpfail_verdicts(ctx, recs, job=None):
+    for d in recs:
+        if d.get("kind") == "dumpfail":
+            ctx.violation("dump-request-fails:status=%s" % d["status"], "GET /dump failed for a cache holding one legally stored question %s: %s" % (
+                json.dumps(d["cq"]), d["body"][:200]), {"dumpfail": d, "job": job})
+
+
 def garbage_verdicts(ctx, recs, job=None):
     gj = None
     if job:
@@ -121,6 +130,7 @@ def replay(ctx):
     tr = [r for r in recs if r["kind"] == "trace" and not r["slow"]]
     ctx.cov["evaluations"] = len(tr)
     judge(ctx, tr, job)
+    dumpfail_verdicts(ctx, recs, job)
     garbage_verdicts(ctx, [r for r in recs if r["kind"] == "garbage"], job)
 
 
@@ -159,7 +169,11 @@ def run(ctx):
     log("%d usable behaviours, %d entry shapes from TLC states" % (len(behs), len(shapes)))
 
     binary = vlib.go_build(ctx, "drv_cache")
-    job = {"mode": "c19", "c19": {"behaviours": behs, "map": cl.plain_map(), "shapes": shapes, "big_n": 150, "big_exec": 12,
+    # behaviours alternate between a plain map and one whose keys contain bytes >= 0x80 (type 255 / 32769, class ANY, 140-octet name)
+    hi = cl.plain_map()
+    hi.update(tag="high-bytes", names={"n1": "a-rather-long-label-number-one." * 4 + "xn--mller-kva.example.", "n2": "\\195\\188ber.example."},
+              types={"t1": 255, "t2": 32769, "t3": 128}, classes={"c1": 255, "c2": 1})
+    job = {"mode": "c19", "c19": {"behaviours": behs, "map": cl.plain_map(), "maps": [cl.plain_map(), hi], "shapes": shapes, "big_n": 150, "big_exec": 12,
                                   "cuts": "all" if T else "quick", "garbage": 400 if T else 80, "lazy": 0}}
     recs, _ = vlib.run_driver(ctx, binary, stdin_obj=job, timeout=1500)
     if T:
@@ -177,6 +191,8 @@ def run(ctx):
     tr = [r for r in tr if not r["slow"]]
     gb = [r for r in recs if r["kind"] == "garbage"]
     acc, rej = judge(ctx, tr, job)
+    dumpfail_verdicts(ctx, recs, job)
+    rej = rej + [r for r in recs if r["kind"] == "dumpfail"]
     garbage_verdicts(ctx, gb, job)
     if not rej:
         def corrupt(t):
